@@ -909,10 +909,11 @@ def run(chk):
         s = pt.add_mods(seq, md)
         if s != s0:
             return f'add_mods(*pop_mods) gives {s!r}, original {s0!r}'
-        seq, md = pt.pop_mods(s0)
-        s = pt.add_mods(pp.ProFormaAnnotation(_sequence=seq), md)
-        if s != s0:
-            return f'add_mods(annotation, pop_mods(string)) gives {s!r}, original {s0!r}'
+        if not has_empty(a):
+            seq, md = pt.pop_mods(s0)
+            s = pt.add_mods(pp.ProFormaAnnotation(_sequence=seq), md)
+            if s != s0:
+                return f'add_mods(annotation, pop_mods(string)) gives {s!r}, original {s0!r}'
         # through the string form as well (a set-but-empty container has no text of its own)
         if not has_empty(a) and pt.add_mods(pt.strip_mods(s0), pt.get_mods(s0)) != s0:
             return f'string round trip gives {pt.add_mods(pt.strip_mods(s0), pt.get_mods(s0))!r}, original {s0!r}'
